@@ -246,11 +246,11 @@ def random_leafval(rnd):
     return rnd.choice([1, 0, -1, 5, 2, "x", "y", "5", "1"])
 
 
-def random_ctx(rnd, depth=3, keys=("a", "b", "c", "x", "d")):
+def random_ctx(rnd, depth=3, keys=("a", "b", "c", "x")):
     d = {}
     for k in keys:
         t = rnd.random()
-        if t < 0.45:
+        if t < (0.4 if depth == 3 else 0.6):
             continue
         if t < 0.7 or depth <= 1:
             d[k] = random_leafval(rnd)
